@@ -17,9 +17,9 @@ PROPERTY = 'C09'
 LEVEL = 'exploration'
 RULE = ('project a -> b -> d (star imports), a -> c -> d (inheritance), a -> x <-> y (import cycle), modules e / f and package '
         'pkg created later (b star-imports the initially missing f); module contents are functions of toggles; operations: '
-        'rewrite with a new mtime (harness counter via os.utime), touch (leaf and importers), create module / package, and twelve '
+        'rewrite with a new mtime (harness counter via os.utime), touch (leaf and importers), create module / package, and thirteen '
         'requests through a.py (assist / location / lint). Exhaustive: quick = every history of length <= 3 over a reduced '
-        'alphabet + every  request;edit;edit;request  history; thorough = length <= 4 over the full 24-symbol alphabet; '
+        'alphabet + every  request;edit;edit;request  history; thorough = length <= 4 over the full 27-symbol alphabet; '
         'random: Hypothesis RuleBasedStateMachine histories up to 12 / 30 steps. Non-trivial history: an edit after the edited '
         'module (or an importer of it) was first loaded, followed by a request that depends on it; distinct by operation sequence.')
 ASSUMPTIONS = ['modification times come from a harness counter through os.utime (never the clock); every rewrite changes the mtime',
@@ -36,7 +36,11 @@ def sources(state):
     c = 'from d import D\n\n\nclass C(D):\n    y = 1\n' + ('    z = 2\n' if state['c_extra'] else '')
     x = 'import y\nxv = 1\n' + ('xextra = 2\n' if state['x_extra'] else '')
     y = 'import x\nyv = 2\n' + ('yextra = 3\n' if state['y_extra'] else '')
-    out = {'d': d, 'b': b, 'c': c, 'x': x, 'y': y}
+    if state['c_broken']:
+        c = c + 'def broken(:\n'            # a module that temporarily does not parse (the user is typing in another buffer)
+    out = {'d': d, 'b': b, 'c': c, 'x': x, 'y': y,
+           'rel/__init__': 'relvalue = 0\n', 'rel/api': 'from . import helpers\n',
+           'rel/helpers': 'hvalue = 1\n' + ('hextra = 2\n' if state['h_extra'] else '')}
     if state['e']:
         out['e'] = 'evalue = 1\n'
     if state['f']:
@@ -63,7 +67,9 @@ A_SRC = ('from b import *\n'
          'x.y.yv\n'
          'x.xv\n'
          'from pkg import sub as psub\n'
-         'psub.pvalue\n')
+         'psub.pvalue\n'
+         'from rel.api import helpers as rh\n'
+         'rh.hvalue\n')
 
 REQUESTS = {
     'assist-instance-attr': ('assist', (5, 4)),
@@ -78,18 +84,19 @@ REQUESTS = {
     'assist-through-cycle': ('assist', (14, 4)),
     'assist-cycle-member': ('assist', (15, 2)),
     'assist-package-from-import': ('assist', (17, 7)),
+    'assist-relative-reexport': ('assist', (19, 5)),
 }
-EDITS = ['w:d_extra', 'w:d_new', 'w:b_extra', 'w:c_extra', 'w:x_extra', 'w:y_extra', 'touch:d', 'touch:b', 'touch:c', 'create:e', 'create:f', 'create:pkg']
+EDITS = ['w:d_extra', 'w:d_new', 'w:b_extra', 'w:c_extra', 'w:c_broken', 'w:h_extra', 'w:x_extra', 'w:y_extra', 'touch:d', 'touch:b', 'touch:c', 'create:e', 'create:f', 'create:pkg']
 ALPHABET = EDITS + sorted(REQUESTS)
-QUICK_EDITS = ['w:d_extra', 'w:d_new', 'w:b_extra', 'w:y_extra', 'touch:d', 'touch:b', 'create:e', 'create:f', 'create:pkg']
+QUICK_EDITS = ['w:d_extra', 'w:d_new', 'w:b_extra', 'w:y_extra', 'w:c_broken', 'w:h_extra', 'touch:d', 'touch:b', 'create:e', 'create:f', 'create:pkg']
 QUICK_REQUESTS = ['assist-instance-attr', 'assist-star-class-attr', 'assist-names', 'assist-created-module', 'location-inherited-attr',
-                  'assist-created-package', 'assist-late-star-names', 'assist-through-cycle', 'assist-package-from-import']
+                  'assist-created-package', 'assist-late-star-names', 'assist-through-cycle', 'assist-package-from-import', 'assist-relative-reexport']
 
 
 class World(object):
     def __init__(self):
         self.root = tempfile.mkdtemp(prefix='c09_')
-        self.state = {'d_extra': False, 'd_new': False, 'b_extra': False, 'c_extra': False, 'x_extra': False, 'y_extra': False, 'e': False, 'f': False, 'pkg': False}
+        self.state = {'d_extra': False, 'd_new': False, 'b_extra': False, 'c_extra': False, 'x_extra': False, 'y_extra': False, 'c_broken': False, 'h_extra': False, 'e': False, 'f': False, 'pkg': False}
         self.clock = 1000000000
         self.written = {}
         self.loaded_once = False
@@ -114,7 +121,7 @@ class World(object):
         if op.startswith('w:'):
             key = op[2:]
             self.state[key] = not self.state[key]
-            mod = key[0]
+            mod = {'h': 'rel/helpers'}.get(key[0], key[0])
             self.write(mod, sources(self.state)[mod])
             if self.loaded_once:
                 self.edit_after_load = True
